@@ -22,6 +22,14 @@ if len(sys.argv) > 5 and sys.argv[5] == "--cmd": demo_cmd = sys.argv[6]
 print("demo_cmd:", demo_cmd)
 # demo_cmd may contain its own `cd`; run from the demo dir by default
 demo_cwd = os.path.join(out, "demo")
+inpkg = [f for f in os.listdir(demo_cwd) if f.endswith("_test.go")] if not os.path.exists(os.path.join(demo_cwd, "go.mod")) else []
+if inpkg:
+    m = re.search(r"go test[^&;|]*", demo_cmd)
+    gotest = m.group(0).strip() if m else "go test -count=1 -vet=off ."
+    if "-vet=off" not in gotest: gotest = gotest.replace("go test", "go test -vet=off")
+    demo_cmd = " && ".join(["cp %s %s/" % (os.path.join(demo_cwd, f), wt) for f in inpkg]) + " ; " + gotest + " ; rc=$? ; " + " ; ".join(["rm -f %s/%s" % (wt, f) for f in inpkg]) + " ; exit $rc"
+    demo_cwd = wt
+    print("in-package demo →", demo_cmd)
 rc0, o0 = run(demo_cmd, demo_cwd)
 print("WITHOUT patch: rc=%d\n%s" % (rc0, o0[-400:]))
 rc, o = run("git apply %s" % os.path.join(out, "patch.diff"), wt); assert rc == 0, "patch does not apply: " + o
